@@ -50,7 +50,7 @@ def main(tier, seed):
         'alphabet': 'name forms {canonical, CANONICAL, inline synonyms, SYNONYM/Mixed, out-of-line synonym and its inline '
                     'synonym (both cases), wildcard keys pri:1:w pri:2:w pri_1_w, PRI:1:W, unknown zz/metho/pri:1:x} x '
                     'separators {=, " = ", blank} x ints {0,-7,42,99999999999} / doubles {1.5,-2e3,1e400} / strings '
-                    '{abc, \'a b\', "q\'q", \'\'} + name=? + flag + flag=1; reduced alphabet = explicit list in opt_harness.cc (every option, name-form class, item kind; values and separators thinned)',
+                    '{abc, \'a b\', "q\'q", \'\', ?x} + name=? + flag + flag=1; reduced alphabet = explicit list in opt_harness.cc (every option, name-form class, item kind; values and separators thinned)',
         'totality': 'all byte strings of length <= %d over {a = blank \' " ? 0 - . 0x80} x prefixes {none, n=, s=, s=\', d=} x '
                     '{ParseOptionString(flags=0), ParseOptions(argv)} + %d long-token strings (48..4096 bytes)'
                     % (blen, cov.get('B_long_token_strings', 0)),
@@ -95,9 +95,9 @@ def replay(path):
     r = json.load(open(path))['replay']
     binary = build()
     if r['part'] == 'A':
-        args = ['--oneA', str(r['handler'])]
-        for src, item, _text in r['steps']:
-            args += [str(src), str(item)]
+        args = ['--oneAtext', str(r['handler'])]
+        for src, _item, text in r['steps']:
+            args += [str(src), text.encode('utf-8', 'surrogateescape').hex() or '-']
     elif r['part'] == 'B':
         args = ['--oneB', str(r['mode']), r['hex']]
     else:
@@ -107,6 +107,8 @@ def replay(path):
     env.update({'ASAN_OPTIONS': 'detect_leaks=0:abort_on_error=0', 'UBSAN_OPTIONS': 'print_stacktrace=1', 'LC_ALL': 'C'})
     p = subprocess.run([binary] + args, capture_output=True, text=True, env=env, errors='replace', timeout=300)
     print(p.stdout)
+    if p.returncode == 2:
+        return 2
     if p.returncode != 0 or 'ERROR: AddressSanitizer' in p.stderr or 'runtime error' in p.stderr:
         print(p.stderr[-3000:])
         return 1
